@@ -43,7 +43,14 @@ class ThreadProxy:
         self.thread = thread
 
     def __eq__(self, other):
-        return self.thread.ident == other.thread.ident
+        if (isinstance(self.thread, DummyThread)
+                or isinstance(other.thread, DummyThread)):
+            # a thread unknown to ``threading`` can only be identified
+            # by its ident
+            return self.thread.ident == other.thread.ident
+        # Thread ids are recycled: a new thread can get the id of a
+        # thread that has finished in the meantime.
+        return self.thread is other.thread
 
     def __repr__(self):
         return repr(self.thread)
